@@ -13,9 +13,9 @@ META = dict(
     specs=["ThreePhase.tla", "ThreePhaseMC.tla", "ThreePhaseTrace.tla", "ThreePhaseSim.tla"],
     technique="TLA+ spec of the three-phase event (TLC exhaustive over all histories of <= 4-5 registrations with removals, two firings and every firing order of the Deferreds) + TLC trace validation of real _ThreePhaseEvent / ReactorBase executions (all small configurations with every Deferred order, random histories up to 20 triggers, spec-generated behaviours)",
     level_text="TLC checks the run-history invariants (each remaining trigger exactly once, before/during/after and registration order, no during/after trigger while a before-trigger's Deferred is unfired, raising triggers stop nothing) on the specification for every history within the stated bounds, and every recorded execution of the real _ThreePhaseEvent and ReactorBase system-event API is validated by TLC as a behaviour of that specification with the sequence of triggers run by every call matched.",
-    level_note="Trusted: TLC, the adapter's run log (trigger ids appended by the trigger callables) and exception classes. Overlapping firings of one event, and triggers that add/remove triggers of the event being fired, are outside the stated property and not driven. What a removal of an already-run/removed trigger reports is left free (the property is silent). Histories beyond the enumerated configurations are sampled.",
+    level_note="Trusted: TLC, the adapter's run log (trigger ids appended by the trigger callables) and exception classes. Triggers may register/remove triggers of the event while they run (scripts, one level of nesting driven); overlapping firings of one event and triggers that fire the event are outside the stated property and not driven. What a removal of an already-run/removed trigger reports is left free (the property is silent). Histories beyond the enumerated configurations are sampled.",
     design_ref="2.4 C12",
-    rule="history = sequence of add(phase, kind)/remove(handle)/fire/fire-Deferred(d, how) calls on one event; distinct = hash of (cfg, events); non-trivial = at least two different call kinds",
+    rule="history = sequence of add(phase, kind incl. the trigger's own register/remove script)/remove(handle)/fire/fire-Deferred(d, how) calls on one event; distinct = hash of (cfg, events); non-trivial = at least two different call kinds",
 )
 
 PHASES = ("before", "during", "after")
